@@ -72,14 +72,21 @@ class PKI:
     """root -> n intermediates -> leaf; every knob the chain-fault catalogue needs."""
 
     def __init__(self, tag="A", n_inter=0, root_cn="Forged Root", root_nb=T0 - 10 * DAY, root_na=T0 + 3650 * DAY,
-                 inter_nb=T0 - 5 * DAY, inter_na=T0 + 1000 * DAY, inter_ca=True):
+                 inter_nb=T0 - 5 * DAY, inter_na=T0 + 1000 * DAY, inter_ca=True, root_bc=True):
         self.tag = tag
         self.root_key = ec_key(f"{tag}_root")
         self.root_name = name(root_cn)
         # certificates are cached per parameter set so that equal PKIs are byte-identical within a run
-        rk = ("root", tag, root_cn, root_nb, root_na)
+        rk = ("root", tag, root_cn, root_nb, root_na, root_bc)
         if rk not in _PKI_CACHE:
-            _PKI_CACHE[rk] = make_cert(self.root_name, self.root_name, self.root_key.public_key(), self.root_key, nb=root_nb, na=root_na, ca=True, serial=4242)
+            if root_bc:
+                _PKI_CACHE[rk] = make_cert(self.root_name, self.root_name, self.root_key.public_key(), self.root_key, nb=root_nb, na=root_na, ca=True, serial=4242)
+            else:
+                # a legacy-style root: no basicConstraints at all, only keyUsage keyCertSign (OpenSSL accepts it as a trust anchor)
+                ku = x509.KeyUsage(digital_signature=False, content_commitment=False, key_encipherment=False, data_encipherment=False,
+                                   key_agreement=False, key_cert_sign=True, crl_sign=True, encipher_only=False, decipher_only=False)
+                _PKI_CACHE[rk] = make_cert(self.root_name, self.root_name, self.root_key.public_key(), self.root_key, nb=root_nb, na=root_na, ca=None,
+                                           exts=[(ku, True)], serial=4242)
         self.root = _PKI_CACHE[rk]
         self.inters = []
         self.inter_keys = []
@@ -145,7 +152,7 @@ def d_ctx(num, content):
     return t + d_len(len(content)) + content
 
 
-def key_description(challenge, sw_all=False, tee_all=False, origin=0, purpose=(2,), tee_extra=b""):
+def key_description(challenge, sw_all=False, tee_all=False, origin=0, purpose=(2,), tee_extra=b"", sw_origin=None, sw_purpose=None):
     def alist(all_apps, origin, purpose):
         items = b""
         if purpose is not None:
@@ -156,7 +163,7 @@ def key_description(challenge, sw_all=False, tee_all=False, origin=0, purpose=(2
             items += d_ctx(702, d_int(origin))
         return d_tlv(0x30, items)
     body = d_int(3) + d_int(1, 0x0A) + d_int(4) + d_int(1, 0x0A) + d_tlv(0x04, challenge) + d_tlv(0x04, b"") \
-        + alist(sw_all, None, None) + alist(tee_all, origin, purpose)
+        + alist(sw_all, sw_origin, sw_purpose) + alist(tee_all, origin, purpose)
     return d_tlv(0x30, body)
 
 
@@ -305,7 +312,7 @@ def build(s):
         stmt = {"alg": alg, "sig": sig}
     elif fmt == "packed":
         leaf = pki.leaf(name("Forged Packed Attestation", [x509.NameAttribute(NameOID.ORGANIZATIONAL_UNIT_NAME, "Authenticator Attestation")]),
-                        att_cred.pk, nb=leaf_nb, na=leaf_na, signer_key=k.get("leaf_signer"))
+                        att_cred.pk, nb=leaf_nb, na=leaf_na, signer_key=k.get("leaf_signer"), ca=(None if k.get("leaf_no_bc") else False))
         sig = raw_sign(k.get("att_signer", att_cred).sk, att_scheme, signed_ad + signed_cdh)
         stmt = {"alg": att_alg, "sig": sig, "x5c": chain(leaf)}
     elif fmt == "fido-u2f":
@@ -364,7 +371,7 @@ def build(s):
         builtin["apple"] = [pki.root_pem()] if s.roots_mode != "builtin-other" else []
     elif fmt == "android-key":
         kd = key_description(k.get("ak_challenge", signed_cdh), sw_all=k.get("ak_sw_all", False), tee_all=k.get("ak_tee_all", False),
-                             origin=k.get("ak_origin", 0), purpose=k.get("ak_purpose", (2,)))
+                             origin=k.get("ak_origin", 0), purpose=k.get("ak_purpose", (2,)), sw_origin=k.get("ak_sw_origin"), sw_purpose=k.get("ak_sw_purpose"))
         exts = [] if k.get("ak_no_ext") else [(x509.UnrecognizedExtension(ObjectIdentifier("1.3.6.1.4.1.11129.2.1.17"), kd), False)]
         leaf_pub = k.get("ak_leaf_cred", cred).pk
         leaf = pki.leaf(name("Forged Android Keystore Key"), leaf_pub, nb=leaf_nb, na=leaf_na, exts=exts, signer_key=k.get("leaf_signer"))
@@ -373,7 +380,7 @@ def build(s):
         stmt = {"alg": k.get("stmt_alg", signer.alg), "sig": sig, "x5c": chain(leaf, with_root=True)}
         builtin["android-key"] = [pki.root_pem()]
     elif fmt == "android-safetynet":
-        sn_key = rsa_key("safetynet_leaf")
+        sn_key = ec_key("safetynet_ec_leaf") if k.get("sn_ec_leaf") else rsa_key("safetynet_leaf")
         leaf = pki.leaf(name(k.get("sn_cn", "attest.android.com")), sn_key.public_key(), nb=leaf_nb, na=leaf_na, signer_key=k.get("leaf_signer"))
         x5c = chain(leaf)
         header = {"alg": k.get("sn_alg", "RS256"), "x5c": [base64.b64encode(c).decode() for c in x5c]}
@@ -383,7 +390,12 @@ def build(s):
         h64, p64 = b64u(json.dumps(header).encode()), b64u(json.dumps(payload).encode())
         signed_input = k.get("sn_signed_input", (h64 + "." + p64).encode())
         sn_signer = k.get("sn_signer", sn_key)
-        sig = sn_signer.sign(signed_input, *((padding.PKCS1v15(), k.get("sn_hash", hashes.SHA256)()) if not k.get("sn_pss") else
+        if k.get("sn_ec_leaf"):
+            from cryptography.hazmat.primitives.asymmetric.utils import decode_dss_signature
+            r_, s_ = decode_dss_signature(sn_signer.sign(signed_input, ec.ECDSA(hashes.SHA256())))
+            sig = r_.to_bytes(32, "big") + s_.to_bytes(32, "big")          # JWS ES256: fixed-width R || S
+        else:
+          sig = sn_signer.sign(signed_input, *((padding.PKCS1v15(), k.get("sn_hash", hashes.SHA256)()) if not k.get("sn_pss") else
                                              (padding.PSS(mgf=padding.MGF1(hashes.SHA256()), salt_length=32), hashes.SHA256())))
         jws = (h64 + "." + p64 + "." + b64u(sig)).encode()
         if "sn_jws" in k:
@@ -414,6 +426,8 @@ def build(s):
             roots = {other: [pki.root_pem()]}
         elif s.roots_mode == "impostor":
             roots = {fmtname: [PKI("Y", root_cn="Forged Root").root_pem()]}      # same name, other key
+        elif s.roots_mode == "extra-unrelated":
+            roots = {fmtname: [PKI("Z", root_cn="Unrelated Root").root_pem()]}        # for built-in formats: an extra RP root next to the (right) built-in one
         elif s.roots_mode == "unrelated":
             roots = {fmtname: [PKI("Z", root_cn="Unrelated Root").root_pem()]}
         elif s.roots_mode == "isolation":
@@ -431,6 +445,8 @@ def build(s):
             # the (substituted) built-in anchor is unrelated; the RP-supplied root for this format carries the trust
             roots = {fmtname: [pki.root_pem()]}
             builtin[s.fmt] = [PKI("Z", root_cn="Unrelated Root").root_pem()]
+        elif s.roots_mode == "extra-unrelated":
+            pass                                                               # built-in = right root, RP adds an unrelated one
         elif s.roots_mode in ("impostor", "unrelated"):
             builtin[s.fmt] = roots[fmtname]
             roots = {}
